@@ -43,7 +43,26 @@ def build(targets, timeout=1500):
         t0 = time.time()
         p = subprocess.run(["lake", "build"] + list(targets), cwd=LEAN, stdout=subprocess.PIPE,
                            stderr=subprocess.STDOUT, timeout=timeout)
+        if p.returncode == 0 and "d42model" in targets:
+            _private_driver()
         return p.returncode == 0, p.stdout.decode(errors="replace"), time.time() - t0
+
+
+def _private_driver():
+    """still holding the build lock: take a private copy of the driver this process just built, and run that one — another
+    check may re-link the shared binary at any moment (generated model files change with the tree under test)"""
+    import atexit
+    import shutil
+    import tempfile
+    from . import model
+    src = os.path.join(LEAN, ".lake", "build", "bin", "d42model")
+    dst = os.path.join(tempfile.gettempdir(), "d42model-%d" % os.getpid())
+    try:
+        shutil.copy2(src, dst)
+    except OSError:
+        return
+    model.EXE = dst
+    atexit.register(lambda: os.path.exists(dst) and os.remove(dst))
 
 
 def strip_comments(src):
